@@ -280,13 +280,13 @@ Fixpoint resolve (m : list (str * str)) (c : cexpr) : rres :=
   | CBin o a b => rbind (resolve m a) (fun x => rbind (resolve m b) (fun y => RQ (QBin o x y)))
   end.
 
-(* filters are applied when the collection is loaded, the pipeline (add_condition items) at conversion *)
-Definition names_rule (cnames fprefixes : list str) (r : rule) (filters : list sfilter)
-           (adds : list (str * bool)) : rule :=
-  let r1 := fold_left (fun r pf => apply_filter (fst pf) (snd pf) r) (combine fprefixes filters) r in
-  fold_left (fun r na => add_cond (fst na) (fst (snd na)) (snd (snd na)) r) (combine cnames adds) r1.
-Definition names_run cnames fprefixes r filters adds : rres :=
-  let r' := names_rule cnames fprefixes r filters adds in resolve (r_dets r') (r_cond r').
+(* filters are applied when the collection is loaded, the pipeline (add_condition items) at conversion.
+   PF: (drawn prefix, filter) in application order; CA: (drawn name, (content, negated)) *)
+Definition names_rule (r : rule) (PF : list (str * sfilter)) (CA : list (str * (str * bool))) : rule :=
+  let r1 := fold_left (fun r pf => apply_filter (fst pf) (snd pf) r) PF r in
+  fold_left (fun r na => add_cond (fst na) (fst (snd na)) (snd (snd na)) r) CA r1.
+Definition names_run r PF CA : rres :=
+  let r' := names_rule r PF CA in resolve (r_dets r') (r_cond r').
 
 (* ---------------------------------------------------------------------------------------- *)
 (* validation issues (after the repair): validators run in the order given, duplicates dropped;
